@@ -129,3 +129,190 @@ def dense(op, dom, n, mode="times"):
         out = getattr(op, mode)(ift.Field(ift.DomainTuple.make(dom), e)).asnumpy().reshape(-1)
         cols.append(list(out))
     return [[cols[j][i] for j in range(n)] for i in range(n)]
+
+
+# ------------------------------------------------------------------------------------------------ sympy elements
+import sympy as sp  # noqa: E402
+
+
+def _U(x):
+    if isinstance(x, SX):
+        return x.e
+    if isinstance(x, (float, np.floating)):
+        return sp.nsimplify(float(x), rational=True)
+    if isinstance(x, (complex, np.complexfloating)):
+        return sp.nsimplify(complex(x).real, rational=True) + sp.I * sp.nsimplify(complex(x).imag, rational=True)
+    return sp.sympify(x)
+
+
+class SX(numbers.Number):
+    """a sympy expression as element of NumPy object arrays; ufuncs on object arrays call the same-named method"""
+    __slots__ = ("e",)
+    shape = ()
+    ndim = 0
+    size = 1
+    dtype = np.dtype(object)
+
+    def __init__(self, e):
+        self.e = sp.sympify(e)
+
+    def __repr__(self):
+        return f"SX({self.e})"
+
+    def __getitem__(self, k):
+        return self
+
+    def item(self):
+        return self
+
+    def _b(f):
+        def g(self, o):
+            if isinstance(o, np.ndarray):
+                return NotImplemented
+            try:
+                return SX(f(self.e, _U(o)))
+            except (sp.SympifyError, TypeError):
+                return NotImplemented
+        return g
+    __add__ = _b(lambda a, b: a + b)
+    __radd__ = _b(lambda a, b: b + a)
+    __sub__ = _b(lambda a, b: a - b)
+    __rsub__ = _b(lambda a, b: b - a)
+    __mul__ = _b(lambda a, b: a * b)
+    __rmul__ = _b(lambda a, b: b * a)
+    __truediv__ = _b(lambda a, b: a / b)
+    __rtruediv__ = _b(lambda a, b: b / a)
+    __pow__ = _b(lambda a, b: a ** b)
+    __rpow__ = _b(lambda a, b: b ** a)
+    del _b
+
+    def __neg__(self):
+        return SX(-self.e)
+
+    def __pos__(self):
+        return self
+
+    def __abs__(self):
+        return SX(sp.Abs(self.e))
+
+    def __eq__(self, o):
+        try:
+            return bool(sp.simplify(self.e - _U(o)) == 0)
+        except (sp.SympifyError, TypeError):
+            return False
+
+    def __ne__(self, o):
+        return not self.__eq__(o)
+
+    __hash__ = None
+
+    def _cmp(self, o, rel):
+        r = sp.simplify(rel(self.e, _U(o)))
+        if r is sp.true:
+            return True
+        if r is sp.false:
+            return False
+        raise symx.EngineLimit(f"sympy element: undecidable comparison {r}")
+
+    def __lt__(self, o):
+        return self._cmp(o, sp.Lt)
+
+    def __le__(self, o):
+        return self._cmp(o, sp.Le)
+
+    def __gt__(self, o):
+        return self._cmp(o, sp.Gt)
+
+    def __ge__(self, o):
+        return self._cmp(o, sp.Ge)
+
+    def __bool__(self):
+        raise symx.EngineLimit("truth value of a sympy element")
+
+    def __float__(self):
+        raise symx.EngineLimit("float() of a sympy element")
+
+    def __complex__(self):
+        raise symx.EngineLimit("complex() of a sympy element")
+
+    @property
+    def real(self):
+        return SX(sp.re(self.e))
+
+    @property
+    def imag(self):
+        return SX(sp.im(self.e))
+
+    def conjugate(self):
+        return SX(sp.conjugate(self.e))
+
+    conj = conjugate
+
+
+for _n, _f in dict(exp=sp.exp, log=sp.log, sin=sp.sin, cos=sp.cos, tan=sp.tan, tanh=sp.tanh, sinh=sp.sinh, cosh=sp.cosh,
+                   sqrt=sp.sqrt, arctan=sp.atan, arcsin=sp.asin, arccos=sp.acos, arcsinh=sp.asinh, arctanh=sp.atanh,
+                   log1p=lambda v: sp.log(1 + v), expm1=lambda v: sp.exp(v) - 1,
+                   log10=lambda v: sp.log(v) / sp.log(10), reciprocal=lambda v: 1 / v, square=lambda v: v * v,
+                   absolute=sp.Abs, sign=sp.sign).items():
+    setattr(SX, _n, (lambda f: lambda self: SX(f(self.e)))(_f))
+
+
+def sx_array(shape, name, **assump):
+    n = int(np.prod(shape, dtype=int))
+    a = np.empty(n, dtype=object)
+    for i in range(n):
+        a[i] = SX(sp.Symbol(f"{name}{i}", **assump))
+    return a.reshape(shape)
+
+
+def exprs(a):
+    return [x.e if isinstance(x, SX) else _U(x) for x in np.asarray(a, dtype=object).ravel()]
+
+
+def is_zero(e, tries=("simplify", "expand", "trigsimp", "rewrite")):
+    """exact zero test of a sympy expression: True / False-with-witness / None (undecided)"""
+    e = sp.sympify(e)
+    if e == 0:
+        return True
+    for t in tries:
+        try:
+            if t == "simplify":
+                r = sp.simplify(e)
+            elif t == "expand":
+                r = sp.together(sp.expand(e))
+                r = sp.simplify(sp.numer(r)) if r != 0 else r
+            elif t == "trigsimp":
+                r = sp.trigsimp(sp.expand(e))
+            else:
+                r = sp.simplify(e.rewrite(sp.exp))
+        except Exception:  # noqa: BLE001
+            continue
+        if r == 0:
+            return True
+    return None
+
+
+def refute_numerically(e, symbols, domain=None, n=24, seed=0):
+    """evaluate e at rational points with 50 digits; a point with |e| > 1e-25 is a counterexample"""
+    import random
+    import mpmath
+    rnd = random.Random(seed)
+    mpmath.mp.dps = 50
+    syms = sorted(e.free_symbols, key=str)
+    for _ in range(n):
+        pt = {}
+        for s in syms:
+            lo, hi = (domain or {}).get(str(s), (-2, 2))
+            if s.is_positive:
+                lo = max(lo, sp.Rational(1, 10))
+            v = sp.Rational(rnd.randint(int(lo * 100), int(hi * 100)), 100)
+            if s.is_real is not True and s.is_positive is not True:
+                v = v + sp.I * sp.Rational(rnd.randint(-150, 150), 100)
+            pt[s] = v
+        try:
+            val = complex(sp.N(e.subs(pt), 40))
+        except Exception:  # noqa: BLE001
+            continue
+        if abs(val) > 1e-25:
+            return {str(k): str(v) for k, v in pt.items()}, val
+    return None, None
